@@ -101,7 +101,7 @@ class DecShapes:
         while i < n:
             e = its[i]
             k = e[0]
-            if k in ('?', 'CFG', 'DESC', 'ASC', 'HOOK', 'SET', 'MUTCALL', 'UNWRAP_OR', 'CHECK', 'COLLECT', 'REMLEN', 'RET', 'PANIC', 'ERR', 'SWALLOW'):
+            if k in ('?', 'CFG', 'DESC', 'ASC', 'HOOK', 'SET', 'MUTCALL', 'UNWRAP_OR', 'CHECK', 'COLLECT', 'REMLEN', 'RET', 'PANIC', 'ERR', 'SWALLOW', 'OWN', 'ALLOC', 'SINKW'):
                 i += 1
                 continue
             if k == 'rb':
@@ -215,7 +215,10 @@ class DecShapes:
                 return self.term_shape(live[0][1], impl, fn)
             if not live:
                 return ('eps',)
-            return ('alt', [(str(d), self.term_shape(x, impl, fn)) for d, x in e[2]])
+            shp = [(str(d), self.term_shape(x, impl, fn)) for d, x in e[2]]
+            if all(w == ('eps',) for _, w in shp):
+                return ('eps',)
+            return ('alt', shp)
         if isinstance(scrut, tuple) and scrut and scrut[0] == 'const' and scrut[1].endswith('TYPE_INFO'):
             return ('opaque', 'TYPE_INFO dispatch outside the vector kernel')
         live = [(d, x) for d, x in e[2] if not _pure_err(x)]
